@@ -346,14 +346,16 @@ def recarrier(v, rng, p=0.25, hashable=False):
         if hashable or rng.random() >= p:
             return d
         return rng.choice((collections.OrderedDict, types.MappingProxyType, CustomMap, lambda x: x,
-                           lambda x: collections.defaultdict(list, x)))(d)
+                           lambda x: collections.defaultdict(list, x), collections.UserDict, lambda x: collections.ChainMap(x, {})))(d)
     if model.is_seq(v):
         items = [recarrier(x, rng, p, hashable) for x in v]
         if hashable:
             return tuple(items)
         if rng.random() >= p:
             return tuple(items) if isinstance(v, tuple) else items
-        return rng.choice((tuple, list, collections.deque, CustomSeq))(items)
+        if items and all(type(x) is int for x in items) and items == list(range(items[0], items[0] + len(items))) and rng.random() < 0.3:
+            return range(items[0], items[0] + len(items))
+        return rng.choice((tuple, list, collections.deque, CustomSeq, collections.UserList))(items)
     return v
 
 
@@ -388,6 +390,7 @@ def case_values(ty, rng, small=False):
 MAP_CARRIERS = (
     ('dict', dict), ('OrderedDict', collections.OrderedDict), ('mappingproxy', lambda d: types.MappingProxyType(dict(d))),
     ('CustomMap', CustomMap), ('defaultdict', lambda d: collections.defaultdict(list, d)),
+    ('UserDict', collections.UserDict), ('ChainMap', lambda d: collections.ChainMap(dict(d), {})),
 )
 
 BAD_TAGS = (['a'], {'x': 1}, None, float('nan'), True, 1, 'unknown-tag', ('a', 'b'), 0, '', b'v1', 2.0)
